@@ -93,7 +93,8 @@ def main(argv):
         try:
             cp = extract.control_facts_path()
             if cp is None:
-                ctl_note = 'control module does not compile against the current /repo tree; controls skipped'
+                ctl_note = 'control module does not compile against the current /repo tree; controls could not be evaluated'
+                broken.append(ctl_note + ' (see .scratch/facts/control-*/FAILED)')
             else:
                 cfacts = Facts(cp)
                 ccx = Cx(cfacts, 'control')
